@@ -6,7 +6,9 @@
 
 void harness(void) {
 	VF_NONDET(size_t, buf_size);
+	VF_HTTP_BOUND(buf_size);
 	VF_FRESH_PTR(uint8_t, buf, buf_size);
+	VF_HTTP_EMPTY_SPAN(buf, buf_size);
 #if defined(VF_FN_skip_spwsp) || defined(VF_FN_skip_spwsp2)
 	const uint8_t *ret_store = NULL;
 	size_t size_store = 0;
